@@ -230,6 +230,8 @@ type worldA struct {
 	tt, sd     time.Duration
 	lru        map[int][]string // reference model of each worker's kept-decision LRU, oldest first
 	keptCap    int
+	peerCount  int
+	reloadHook func(op Op) bool // world variants: handle extra reload kinds
 	decLog     []*decisionRec
 	afterEj    map[int]map[int][]collect.VerifTraceInfo
 	mu         sync.Mutex
@@ -328,7 +330,7 @@ func (w *worldA) epochAt(step int) cfgEpoch {
 	return e
 }
 
-func newWorldA(p *Plan, out *Outcome) *worldA {
+func newWorldA(p *Plan, out *Outcome, preStart func(w *worldA)) *worldA {
 	w := &worldA{p: p, out: out, traces: map[string]*traceModel{}, byIdx: map[int]*traceModel{}, spans: map[string]*spanRec{},
 		qIn: map[int][]*spanRec{}, qPeer: map[int][]*spanRec{}, lru: map[int][]string{}, afterEj: map[int]map[int][]collect.VerifTraceInfo{}}
 	w.start = time.Now()
@@ -381,6 +383,7 @@ func newWorldA(p *Plan, out *Outcome) *worldA {
 	w.hl = &health.Health{Clock: w.clk}
 	w.hl.Start()
 	nPeers := int(p.Get("peers", 1))
+	w.peerCount = nPeers
 	var pl []string
 	for i := 0; i < nPeers; i++ {
 		pl = append(pl, fmt.Sprintf("http://peer%d:8081", i))
@@ -408,6 +411,9 @@ func newWorldA(p *Plan, out *Outcome) *worldA {
 		return v
 	}
 	w.tr.OnStart = w.onTrace
+	if preStart != nil {
+		preStart(w)
+	}
 	if err := w.coll.Start(); err != nil {
 		out.Harness = "collector start: " + err.Error()
 		return w
@@ -603,10 +609,17 @@ func (w *worldA) mkSpan(sr *spanRec) *types.Span {
 	}
 	pl.ExtractMetadata()
 	ev := &types.Event{
-		Context: context.Background(), APIHost: "http://api.sim", APIKey: "key-env-1", Dataset: "ds1", Environment: "env1",
+		Context: context.Background(), APIHost: "http://api.sim", APIKey: "key-env-1", Dataset: "ds1", Environment: envOf(sr.op),
 		SampleRate: sr.client, Timestamp: time.Unix(1700000000, 0).Add(time.Duration(sr.op.ID) * time.Millisecond), Data: pl,
 	}
 	return &types.Span{Event: ev, TraceID: sr.traceID, IsRoot: sr.kind == skRoot}
+}
+
+func envOf(op Op) string {
+	if op.S != "" {
+		return op.S
+	}
+	return "env1"
 }
 
 func (w *worldA) doSpan(op Op) {
@@ -660,6 +673,12 @@ func (w *worldA) doReload(op Op) {
 			w.out.Probe("reload_skipped_worker_parked")
 			return
 		}
+	}
+	if w.reloadHook != nil && w.reloadHook(op) {
+		w.pushEpoch()
+		c.Reload()
+		w.out.Probe("reload_" + op.S)
+		return
 	}
 	c.Mux.Lock()
 	switch op.S {
@@ -743,7 +762,9 @@ func (w *worldA) schedule() time.Duration {
 				for i := int64(0); i < op.N; i++ {
 					pl = append(pl, fmt.Sprintf("http://peer%d:8081", i))
 				}
+				w.peerCount = int(op.N)
 				w.peers.UpdatePeers(pl)
+				w.out.Probe("peer_count_change")
 			}
 		})
 	}
@@ -829,14 +850,26 @@ func (w *worldA) hooks() {
 
 // ---------------------------------------------------------------------------
 
-func runWorldA(t *testing.T, p *Plan) *Outcome {
+type aOpts struct {
+	preStart  func(w *worldA)             // after config is built, before the collector starts
+	afterStep func(w *worldA, kind string) // at quiescence after every stimulus
+	final     func(w *worldA)             // after the drain, before shutdown
+	noBase    bool                        // skip the C01..C07 oracles
+}
+
+func runWorldA(t *testing.T, p *Plan) *Outcome { return runWorldAWith(t, p, aOpts{}) }
+
+func runWorldAWith(t *testing.T, p *Plan, o aOpts) *Outcome {
 	out := NewOutcome()
 	pt := InBubble(t, func() {
-		w := newWorldA(p, out)
+		w := newWorldA(p, out, o.preStart)
 		if out.Harness != "" {
 			return
 		}
 		w.hooks()
+		if o.afterStep != nil {
+			w.drv.AfterStep = func(kind, ident string) { o.afterStep(w, kind) }
+		}
 		w.drv.Settle()
 		last := w.schedule()
 		w.drv.Run(last + time.Microsecond)
@@ -862,7 +895,12 @@ func runWorldA(t *testing.T, p *Plan) *Outcome {
 		}
 		budget := w.tracesCfgTimeout() + sd + time.Duration(rounds+1)*tick
 		w.drv.Run(last + budget)
-		w.checkAll()
+		if !o.noBase {
+			w.checkAll()
+		}
+		if o.final != nil {
+			o.final(w)
+		}
 		// orderly stop so the bubble can end
 		w.tr.ReleaseAll()
 		w.coll.Stop()
